@@ -27,6 +27,27 @@ T = {
  "C08": (MC, "§6.8", "TLC enumerates every cell subset of the catalogue tissues x interior-point counts, checks the implementation-shaped decomposition against the declarative C08 verdict, and every enumerated instance is executed on the real Frame() and validated by TLC against the same verdict; random large tissues and fixtures are sampled.",
          "bounded-exhaustive over sub-tissues of the catalogue only; TLC, the Json module and the projection are trusted",
          "TLA+ spec (Interfaces.tla) + TLC bounded-exhaustive enumeration replayed into the code + TLC trace validation"),
+ "C17": (MC, "§6.17", "TLC enumerates interface-list configurations (distinct, repeated, equal-valued, equal coordinates, arbitrary ids) x integer/half-integer rescale-offset placements x layers x integrate x image mode with value-pattern images, checks the model-level invariants, and every leaf is executed on the real get_intensities (integrate mode through one impulse per pixel and interface) and validated by TLC against the same clauses; random polyline lists and synthetic tissues in random float/8-bit images are sampled.",
+         "bounded-exhaustive over the enumerated configurations only; Pillow pixel access, TLC/Json and the projection are trusted",
+         "TLA+ spec (Myosin.tla) + TLC bounded enumeration replayed into the code + TLC trace validation with impulse-response characterisation of integrate mode"),
+ "C19": (MC, "§6.19", "TLC enumerates abstract Voronoi outputs (patches of square, hexagonal and irregular regions, with empty and unbounded regions) x listing order x start corner x rotational sense per region x cut-off, checks the implementation-shaped walk against the declarative C19 verdict, and every enumerated instance is executed on the real create_lattice through a scipy.spatial.Voronoi stub and validated by TLC; real centre sets (random, jittered, exactly square/hexagonal, 6..300, ring, cut-off tight..infinite) are sampled through the real SciPy against the same verdict.",
+         "bounded-exhaustive over the listed patches only; the real-SciPy part is sampling; SciPy's Voronoi is the definition of the diagram; TLC, the Json module and the projection are trusted",
+         "TLA+ spec (Tessellation.tla) + TLC bounded-exhaustive enumeration replayed into the code via a Voronoi stub + TLC trace validation with exact integer geometry"),
+ "C03": (EX, "§6.3", "TLC judges |x_i - T_i| <= tolerance on logged velocity-based solves of generated series whose junction displacement is exactly elapsed time x resultant of arbitrary positive tensions (forward, backward at the last frame), frames independently renumbered, unequal steps, three back-ends.",
+         "truth from generator closed forms; tracking assumed correct for the small displacements (C12); conditioning-derived tolerance",
+         "TLA+ certificate (Trace_Inference.tla C03Solve) evaluated by TLC on traces of the real pipeline"),
+ "C06": (EX, "§6.6", "Two runs of one abstract tissue under two embeddings are keyed by physical interface/cell and compared by TLC (ComparePhys): tensions, pressures equal within conditioning-derived tolerances, coefficient pairs rotate/reflect with the tissue; known defects excuse a pair only through TLA+ matchers.",
+         "tolerances from the true systems of both embeddings; dynamic unit changes not yet covered (see DESIGN)",
+         "TLA+ equivariance predicate evaluated by TLC on paired traces of the real pipeline"),
+ "C07": (MC, "§6.7", "All orientation patterns (2^cells) x random cyclic shifts x renumbering/storage order of small catalogue tissues and random tissues: two runs compared by TLC per physical interface/cell (same internal set, equations, coefficient pairs, tensions, pressures); MC_Equivariance checks exhaustively that the implementation-shaped decomposition operators are invariant under flips, shifts and renumbering.",
+         "cells inserted in construction order; tensions compared when the true system is well conditioned",
+         "TLA+ spec + TLC exhaustive equivariance check of the decomposition + TLC comparison of paired traces"),
+ "C15": (EX, "§6.15", "Trace validation of the parsed and resampled mesh against an independent image analysis (numpy/scipy.ndimage): premise and all clauses evaluated by TLC. Bounded-exhaustive over all three-armed junction windows of a 5x5 (7x7 thorough) pixel window and all wall layouts of a 3x2 (3x3) room grid enumerated by TLC (MC_Skeleton, MC_SkeletonRooms) and replayed through the real parser; sampled rasterised Voronoi tissues (4-60 cells) and the shipped skeletons under 8 symmetries, padding, mirror_y, ne 3-9.",
+         "OpenCV contour tracing is a black box; truth comes from the independent image analysis; premise (minimal 8-connected skeleton) evaluated by TLC from a logged pixel summary",
+         "TLA+ outcome specification (Skeleton.tla) + TLC enumeration of pixel junctions / pixel tissues replayed into the parser + TLC trace validation"),
+ "C18": (EX, "§6.18", "TLC judges, from logged per-cell/per-interface data, symmetry, zero-iff-empty, joint linearity (3 runs), pure-pressure isotropy, the full Batchelor sum and the eigen certificate of Frame.principal_stress at every decidable grid position, for catalogue and random Voronoi tissues x grids 1..12 x radii 0.5..6 x random/zero/negative/uniform assignments; the key/grid bookkeeping and the eigen certificate are model-checked exhaustively (grid sizes 1..12, all small symmetric matrices).",
+         "sampled inputs; positions within the pi-gap or quantisation margin and degenerate interface vectors are rejected (counted); fixed point Q = 1e6",
+         "TLA+ spec (StressTensor.tla) + TLC model of key injectivity and eigen-certificate meta-checks + TLC trace validation of the real stress_tensor"),
 }
 PENDING = "check not integrated yet (being built; see DESIGN.md Appendix D)"
 
